@@ -64,7 +64,7 @@ fn main() {
     let n: usize = args[3].parse().unwrap();
     let table: Value =
         serde_json::from_str(&std::fs::read_to_string(&args[4]).expect("layout file")).unwrap();
-    let mut g = Gen { rng: Rng::new(seed), big: false, last_alg: None };
+    let mut g = Gen { rng: Rng::new(seed), big: false, last_alg: None, soft_opt: false };
     let mut tw = TraceWriter::create(&args[1]);
     // record data types used in whole records (every row of the table)
     let rec_types: Vec<u16> = table["code"].as_object().unwrap().values()
